@@ -89,15 +89,17 @@ def verify_function(con, reg, repo="/repo", z3_ms=None, extra=None):
     out["results"] = res
     out["n_paths"] = eng.n_paths
     out["assumptions"] = sorted(eng.assumptions_used)
-    # guards: reachability canaries (a contradictory precondition / invariant proves everything)
+    # guards: reachability canaries (a contradictory precondition / invariant would prove everything): `False` must NOT be
+    # provable from the hypotheses at function entry, at every loop body entry and at a return point
+    can = []
     for label, hyps in eng.reach:
-        r = solve.is_sat(hyps, 10000)
-        out["canaries"].append(dict(kind="reachable", label=label, result=r, ok=(r != "unsat")))
-    # must-fail canary: `False` as a postcondition on every return path must be refuted
+        can.append(Oblig("%s::canary::reach:%s" % (con.qual, label), "canary", hyps, z3.BoolVal(False)))
     if eng.return_states:
         st, rv = eng.return_states[0]
-        r = solve.is_sat(st.pc, 10000)
-        out["canaries"].append(dict(kind="must-fail", label="post::False on a return path", result=("refuted" if r == "sat" else r), ok=(r != "unsat")))
+        can.append(Oblig("%s::canary::must-fail:post-False" % con.qual, "canary", st.pc, z3.BoolVal(False)))
+    cres = solve.discharge(can, z3_ms=1500, use_cvc5=False)
+    for r in cres:
+        out["canaries"].append(dict(kind="not-provably-false", label=r["name"].split("::canary::")[1], result=r["status"], ok=(r["status"] != "discharged")))
     out["wall_s"] = round(time.time() - t0, 3)
     return out, eng
 
